@@ -9,9 +9,12 @@
               (4, path, path) rename;  path = list of names;  mode 0 'wb' 1 'xb' 2 'ab' 3 'r+b';
               action = () | (0) touch | (1, () | (pos), nbytes) write | (2, size) truncate
    "run": [outcomes; final state]   "trace": list of [outcome; state after the op]
+   "abs": the plain tree of the state, node = (0, size) | (1, list of (name, node))
+   "refine": for ONE op o: [model outcome; spec outcome on abs_tree s; spec tree; abs_tree of the
+             model's new state; the new state] -- the statement of FV_*_refines, evaluated
    a state is printed as [fat; dirs] in the input format (canonical: directories in store order) *)
 From Coq Require Import List NArith String Bool.
-From NV Require Import Lib.Val Lib.Res Lib.Wire FatVol.Model.
+From NV Require Import Lib.Val Lib.Res Lib.Wire FatVol.Model FatVol.Spec.
 From NV Require FatDir.Run.
 Import ListNotations.
 Open Scope string_scope.
@@ -22,9 +25,9 @@ Definition VNs (l : list N) : val := VL (List.map VN l).
 Definition get_params (v : val) : vparams :=
   {| vp_bits := getN (arg 0 v); vp_cs := getN (arg 1 v); vp_limit := getN (arg 2 v);
      vp_rootc := getN (arg 3 v); vp_rootcap := getN (arg 4 v) |}.
-Definition get_fat (v : val) : FA.fat :=
-  {| FA.ftbl := getNs (arg 0 v);
-     FA.finfo := match getL (arg 1 v) with [a; b] => Some (getN a, getN b) | _ => None end |}.
+Definition get_fat (v : val) : FatAlloc.Model.fat :=
+  {| FatAlloc.Model.ftbl := getNs (arg 0 v);
+     FatAlloc.Model.finfo := match getL (arg 1 v) with [a; b] => Some (getN a, getN b) | _ => None end |}.
 Definition get_item (v : val) : item :=
   match getL v with
   | [] => Dead
@@ -64,11 +67,17 @@ Definition VItem (i : item) : val :=
   | Live e => VL [VS (e_name e); VS (e_alias e); VN (e_attr e); VN (e_size e); VN (e_clu e); VN (e_nlfn e)]
   end.
 Definition VVol (s : vol) : val :=
-  VL [VL [VNs (FA.ftbl (v_fat s));
-          match FA.finfo (v_fat s) with Some (la, fc) => VL [VN la; VN fc] | None => VL [] end];
+  VL [VL [VNs (FatAlloc.Model.ftbl (v_fat s));
+          match FatAlloc.Model.finfo (v_fat s) with Some (la, fc) => VL [VN la; VN fc] | None => VL [] end];
       VL (List.map (fun kd => VL [VN (fst kd); VN (d_dot (snd kd)); VN (d_dotdot (snd kd));
                                   VL (List.map VItem (d_items (snd kd)))]) (v_dirs s))].
 Definition VOut (r : res unit) : val := VRes (fun _ => VL []) r.
+
+Fixpoint VNode (n : node) : val :=
+  match n with
+  | File sz => VL [VN 0; VN sz]
+  | Dir ch => VL [VN 1; VL (List.map (fun x => VL [VS (fst x); VNode (snd x)]) ch)]
+  end.
 
 Fixpoint trace (up : name -> name) (V : vparams) (s : vol) (ops : list op) : list val :=
   match ops with
@@ -84,6 +93,15 @@ Definition dispatch (cmd : string) (a : val) : val :=
   if String.eqb cmd "run" then
     let x := run up V s ops in VL [VL (List.map VOut (snd x)); VVol (fst x)]
   else if String.eqb cmd "trace" then VL (trace up V s ops)
+  else if String.eqb cmd "abs" then VNode (abs_tree s)
+  else if String.eqb cmd "refine" then
+    match ops with
+    | o :: _ =>
+      let x := step up V s o in
+      let y := spec_step up (abs_tree s) o in
+      VL [VOut (snd x); VOut (snd y); VNode (fst y); VNode (abs_tree (fst x)); VVol (fst x)]
+    | [] => VErr "no op"
+    end
   else if String.eqb cmd "resolve" then        (* ops = one path: 0 none, 1 root, (index, entry) *)
     VRes (fun r => match r with
                    | RNone => VN 0 | RRoot => VN 1
